@@ -22,6 +22,8 @@ props.prop(
     not_decided='that contains() answers the geometric question (comparisons, rotation numerics, polygon discretisation, '
                 'tolerance at the boundary)',
     assumptions=['copy.copy copies every instance field'])
+props.also('C08',
+           'that on the general-angle branch the pre-selection half-extent uses both radii; that the polygon helpers are scale-free (shared with C09.g)')
 
 ROI = 'glue.core.roi.Roi'
 
